@@ -147,6 +147,12 @@ inductive Out
   | drop
 deriving DecidableEq, Repr
 
+/-- the packet continues its journey (handed to the next router or to the destination host) -/
+def Out.accepting : Out → Bool
+  | .deliver _ => true
+  | .forward _ _ => true
+  | _ => false
+
 /-- hop expiry: info timestamp (s) + (ExpTime+1)·337.5 s lies before `now` (ms) -/
 def expired (nowMs : Nat) (ts exp : Nat) : Bool := ts * 1000 + (exp + 1) * 337500 < nowMs
 
@@ -179,42 +185,49 @@ structure StIn where
   c : Cursor
   peering : Bool
 
+/-- the packet after `updateNonConsDirIngressSegID` -/
+def ingUpd (c : Cursor) (arr : Arrival) (peering : Bool) : Cursor :=
+  if !c.info.consDir && arr.ifid != 0 && !peering then
+    { c with info := { c.info with segID := updateSegID c.info.segID (pfx c.cur.mac) } }
+  else c
+
+/-- ingress router alert consumed: the flag of the side the packet came in on is cleared -/
+def clearInAlert (c : Cursor) : Cursor :=
+  { c with cur := if c.info.consDir then { c.cur with inAlert := false }
+                  else { c.cur with egAlert := false } }
+
+/-- `validateHopExpiry` … `handleIngressRouterAlert` on the packet `c1` as updated at ingress -/
+def stChecks (mac : MacFn) (cfg : RCfg) (nowMs : Nat) (arr : Arrival) (srcLocal dstLocal : Bool)
+    (c1 : Cursor) (peering : Bool) : Except Out StIn :=
+  -- validateHopExpiry
+  if expired nowMs c1.info.ts c1.cur.exp then .error (.slow 4 52 0 c1) else
+  -- validateIngressID
+  if arr.ifid != 0 && arr.ifid != (if c1.info.consDir then c1.cur.cIn else c1.cur.cEg) then
+    .error (.slow 4 (if c1.info.consDir then 49 else 50) 0 c1) else
+  -- validateTransitUnderlaySrc
+  if !(c1.isFirstHop || arr.ifid != 0) &&
+      !(match arr, cfg.iface (ingressInterface c1 peering) with
+        | .sibling k, some f => f.owner == k && f.owner != cfg.self
+        | _, _ => false) then .error .drop else
+  -- validateSrcDstIA
+  if (if arr.ifid == 0 then c1.isFirstHop && !srcLocal else srcLocal) then
+    .error (.slow 4 33 0 c1) else
+  if (if arr.ifid == 0 then dstLocal else c1.isLastHop != dstLocal) then
+    .error (.slow 4 34 0 c1) else
+  -- verifyCurrentMAC
+  if !macOk mac cfg.key c1.info c1.cur then .error (.slow 4 51 0 c1) else
+  -- handleIngressRouterAlert
+  if arr.ifid != 0 && (if c1.info.consDir then c1.cur.inAlert else c1.cur.egAlert) then
+    .error (.alert true 0 (clearInAlert c1))
+  else .ok ⟨c1, peering⟩
+
 /-- `parsePath` … `handleIngressRouterAlert` -/
 def stIngress (mac : MacFn) (cfg : RCfg) (nowMs : Nat) (arr : Arrival) (srcLocal dstLocal : Bool)
     (c : Cursor) : Except Out StIn :=
-  let ingress := arr.ifid
   if !c.info.peer && c.hasSingleton then .error .drop else
   match determinePeer c with
   | none => .error .drop
-  | some peering =>
-    -- updateNonConsDirIngressSegID
-    let c1 : Cursor :=
-      if !c.info.consDir && ingress != 0 && !peering then
-        { c with info := { c.info with segID := updateSegID c.info.segID (pfx c.cur.mac) } }
-      else c
-    -- validateHopExpiry
-    if expired nowMs c1.info.ts c1.cur.exp then .error (.slow 4 52 0 c1) else
-    -- validateIngressID
-    if ingress != 0 && ingress != (if c1.info.consDir then c1.cur.cIn else c1.cur.cEg) then
-      .error (.slow 4 (if c1.info.consDir then 49 else 50) 0 c1) else
-    -- validateTransitUnderlaySrc
-    if !(c1.isFirstHop || ingress != 0) &&
-        !(match arr, cfg.iface (ingressInterface c1 peering) with
-          | .sibling k, some f => f.owner == k && f.owner != cfg.self
-          | _, _ => false) then .error .drop else
-    -- validateSrcDstIA
-    if (if ingress == 0 then c1.isFirstHop && !srcLocal else srcLocal) then
-      .error (.slow 4 33 0 c1) else
-    if (if ingress == 0 then dstLocal else c1.isLastHop != dstLocal) then
-      .error (.slow 4 34 0 c1) else
-    -- verifyCurrentMAC
-    if !macOk mac cfg.key c1.info c1.cur then .error (.slow 4 51 0 c1) else
-    -- handleIngressRouterAlert
-    if ingress != 0 && (if c1.info.consDir then c1.cur.inAlert else c1.cur.egAlert) then
-      .error (.alert true 0
-        { c1 with cur := if c1.info.consDir then { c1.cur with inAlert := false }
-                         else { c1.cur with egAlert := false } })
-    else .ok ⟨c1, peering⟩
+  | some peering => stChecks mac cfg nowMs arr srcLocal dstLocal (ingUpd c arr peering) peering
 
 structure StX where
   c : Cursor
@@ -232,39 +245,51 @@ def stXover (mac : MacFn) (cfg : RCfg) (nowMs : Nat) (s : StIn) : Except Out StX
       .ok ⟨c2, s.peering, true⟩
   else .ok ⟨s.c, s.peering, false⟩
 
+/-- egress router alert consumed -/
+def clearEgAlert (c : Cursor) : Cursor :=
+  { c with cur := if c.info.consDir then { c.cur with egAlert := false }
+                  else { c.cur with inAlert := false } }
+
+/-- SegID part of `processEgress` -/
+def egUpd (c : Cursor) (peering : Bool) : Cursor :=
+  if c.info.consDir && !peering then
+    { c with info := { c.info with segID := updateSegID c.info.segID (pfx c.cur.mac) } }
+  else c
+
+/-- what the router knows about the egress interface; interface 0 is the internal link: known,
+    but neither external nor of any link type -/
+def egressIface (cfg : RCfg) (egress : Nat) : Option Iface :=
+  if egress == 0 then some ⟨0, .unset, true, cfg.self + 1, 0, 0⟩ else cfg.iface egress
+
+def ingressLT (cfg : RCfg) (ingress : Nat) : LinkType :=
+  match cfg.iface ingress with
+  | some f => f.lt
+  | none => .unset
+
+def egressOf (c : Cursor) : Nat := if c.info.consDir then c.cur.cEg else c.cur.cIn
+
 /-- `validateEgressID`, `handleEgressRouterAlert`, `validateEgressUp`, `processEgress` -/
 def stEgress (cfg : RCfg) (arr : Arrival) (s : StX) : Out :=
-  let ingress := arr.ifid
   let c := s.c
-  let egress := if c.info.consDir then c.cur.cEg else c.cur.cIn
-  -- interface 0 is the internal link: known, but neither external nor of any link type
-  match (if egress == 0 then some ⟨0, .unset, true, cfg.self + 1, 0, 0⟩ else cfg.iface egress) with
-  | none => .slow 4 (if c.info.consDir then 50 else 49) egress c
+  match egressIface cfg (egressOf c) with
+  | none => .slow 4 (if c.info.consDir then 50 else 49) (egressOf c) c
   | some eg =>
-    let extEg := eg.owner == cfg.self
-    if ingress == 0 && !extEg then .slow 4 (if c.info.consDir then 50 else 49) egress c else
-    let inLT := match cfg.iface ingress with
-      | some f => f.lt
-      | none => LinkType.unset
-    if !s.xover && ingress != 0 && !ltSame inLT eg.lt then .slow 4 48 egress c else
-    if s.xover && !ltXover inLT eg.lt then .slow 4 53 egress c else
+    if arr.ifid == 0 && !(eg.owner == cfg.self) then
+      .slow 4 (if c.info.consDir then 50 else 49) (egressOf c) c else
+    if !s.xover && arr.ifid != 0 && !ltSame (ingressLT cfg arr.ifid) eg.lt then
+      .slow 4 48 (egressOf c) c else
+    if s.xover && !ltXover (ingressLT cfg arr.ifid) eg.lt then .slow 4 53 (egressOf c) c else
     -- handleEgressRouterAlert
-    if (if c.info.consDir then c.cur.egAlert else c.cur.inAlert) && extEg then
-      .alert false egress
-        { c with cur := if c.info.consDir then { c.cur with egAlert := false }
-                        else { c.cur with inAlert := false } } else
+    if (if c.info.consDir then c.cur.egAlert else c.cur.inAlert) && eg.owner == cfg.self then
+      .alert false (egressOf c) (clearEgAlert c) else
     -- validateEgressUp (sibling links are always up in this model)
-    if extEg && !eg.up then .slow 5 0 egress c else
-    if extEg then
+    if eg.owner == cfg.self && !eg.up then .slow 5 0 (egressOf c) c else
+    if eg.owner == cfg.self then
       -- processEgress
-      let c1 : Cursor :=
-        if c.info.consDir && !s.peering then
-          { c with info := { c.info with segID := updateSegID c.info.segID (pfx c.cur.mac) } }
-        else c
-      match c1.incPath with
+      match (egUpd c s.peering).incPath with
       | none => .drop
-      | some c2 => .forward egress c2
-    else .forward egress c
+      | some c2 => .forward (egressOf c) c2
+    else .forward (egressOf c) c
 
 /-- one border router processing one packet (`scionPacketProcessor.process`) -/
 def routerStep (mac : MacFn) (cfg : RCfg) (nowMs : Nat) (arr : Arrival) (srcLocal dstLocal : Bool)
@@ -298,11 +323,7 @@ def scmpPrepare (c : Cursor) (linkExternal : Bool) : Option Cursor :=
     | none => none
     | some r1 =>
       if linkExternal then
-        let r2 : Cursor :=
-          if r1.info.consDir && !peering then
-            { r1 with info := { r1.info with segID := updateSegID r1.info.segID (pfx r1.cur.mac) } }
-          else r1
-        r2.incPath
+        (egUpd r1 peering).incPath
       else some r1
 
 /-! ### Flat (wire-like) view: what the harness reads off real packets -/
@@ -353,5 +374,256 @@ def toFlat (c : Cursor) : Flat :=
     segLens := lens ++ List.replicate (3 - lens.length) 0
     infos := c.segs.map (·.info)
     hops := (c.segs.map (·.hops)).flatten }
+
+/-! ## Part 2: the network, beaconing, path combination, end-to-end runs -/
+
+structure ASCfg where
+  key : Bytes
+  core : Bool
+  ifaces : List Iface
+deriving Repr
+
+def ASCfg.iface (a : ASCfg) (id : Nat) : Option Iface := a.ifaces.find? (·.id == id)
+
+/-- a network: AS number ↦ configuration (ASes that do not exist have no interfaces) -/
+abbrev Net := Nat → ASCfg
+
+/-! ### Control plane: segments as the beacon extender builds them -/
+
+structure HopE where
+  cIn : Nat
+  cEg : Nat
+  exp : Nat
+  mac : Nat
+deriving DecidableEq, Repr
+
+structure PeerE where
+  hop : HopE        -- `hop.cIn` is the local peering interface
+  peerAS : Nat
+  peerIf : Nat
+deriving DecidableEq, Repr
+
+structure ASE where
+  ia : Nat
+  hop : HopE
+  peers : List PeerE
+deriving DecidableEq, Repr
+
+structure PSeg where
+  s0 : Nat
+  ts : Nat
+  entries : List ASE
+deriving DecidableEq, Repr
+
+/-- first two MAC bytes of the regular hop entries: the σ of `Scion.SegID` -/
+def sigmas (s : PSeg) : List Nat := s.entries.map fun e => pfx e.hop.mac
+
+/-- `createHopF`: the hop field with its MAC under the AS key and accumulator `β` -/
+def mkHopE (mac : MacFn) (key : Bytes) (β ts exp ingress egress : Nat) : HopE :=
+  ⟨ingress, egress, exp, mac key (macInput β ts exp ingress egress)⟩
+
+/-- `DefaultExtender.Extend`: AS `a` appends its entry — hop entry under `extractBeta`, one peer
+    entry per (known) peering interface under `β ⊕ MAC[:2]` of the hop entry just made -/
+def extend (mac : MacFn) (net : Net) (s : PSeg) (a exp ingress egress : Nat) (peers : List Nat) :
+    PSeg :=
+  let β := Scion.SegID.extractBeta s.s0 (sigmas s)
+  let h := mkHopE mac (net a).key β s.ts exp ingress egress
+  let pβ := updateSegID β (pfx h.mac)
+  let pes := peers.filterMap fun p =>
+    match (net a).iface p with
+    | some f => some ⟨mkHopE mac (net a).key pβ s.ts exp p egress, f.nbr, f.nbrIf⟩
+    | none => none
+  { s with entries := s.entries ++ [⟨a, h, pes⟩] }
+
+/-- kind of beaconing: core beacons travel over core links, intra-ISD beacons over links to
+    children -/
+def beaconLink (coreSeg : Bool) : LinkType := if coreSeg then .core else .child
+
+/-- `Beaconed coreSeg b a i`: beacon `b` has reached AS `a` on its interface `i`, having been
+    originated and propagated by ASes of `net` with their own keys (any expiry values, any peer
+    interface selections, any propagation order) -/
+inductive Beaconed (mac : MacFn) (net : Net) (coreSeg : Bool) : PSeg → Nat → Nat → Prop
+  | originate (a s0 ts exp e : Nat) (peers : List Nat) (f : Iface) :
+      (net a).iface e = some f → f.lt = beaconLink coreSeg → e ≠ 0 →
+      Beaconed mac net coreSeg (extend mac net ⟨s0, ts, []⟩ a exp 0 e peers) f.nbr f.nbrIf
+  | propagate (b : PSeg) (a i exp e : Nat) (peers : List Nat) (f : Iface) :
+      Beaconed mac net coreSeg b a i → (net a).iface e = some f → f.lt = beaconLink coreSeg →
+      e ≠ 0 → Beaconed mac net coreSeg (extend mac net b a exp i e peers) f.nbr f.nbrIf
+
+/-- a registered segment: a beacon terminated (egress 0) by the AS it reached -/
+inductive Registered (mac : MacFn) (net : Net) (coreSeg : Bool) : PSeg → Prop
+  | terminate (b : PSeg) (a i exp : Nat) (peers : List Nat) :
+      Beaconed mac net coreSeg b a i → Registered mac net coreSeg (extend mac net b a exp i 0 peers)
+
+/-! ### Path combination (`pathSolution.Path`) for a list of at most three edges -/
+
+structure Edge where
+  seg : PSeg
+  core : Bool := false   -- core segment (always used against construction direction)
+  down : Bool            -- used as down segment (construction direction); up and core: false
+  shortcut : Nat         -- AS entry where the used part ends (up/core) or starts (down)
+  peer : Option Nat      -- index of the peer entry used at the shortcut AS
+deriving Repr
+
+def hopOf (h : HopE) : Hop := ⟨h.cIn, h.cEg, h.exp, h.mac, false, false⟩
+
+/-- hop fields of the used part in construction order -/
+def edgeHops (e : Edge) : Option (List Hop) :=
+  match e.seg.entries.drop e.shortcut with
+  | [] => none
+  | x :: rest =>
+    match e.peer with
+    | none => some (hopOf x.hop :: rest.map fun y => hopOf y.hop)
+    | some k =>
+      match x.peers[k]? with
+      | some p => some (hopOf p.hop :: rest.map fun y => hopOf y.hop)
+      | none => none
+
+/-- one path segment: info field with `calculateBeta`, hop fields in forwarding order -/
+def edgeSeg (e : Edge) : Option Seg :=
+  match Scion.SegID.calculateBeta e.down e.shortcut e.peer.isSome e.seg.s0 (sigmas e.seg),
+        edgeHops e with
+  | some b, some hs =>
+    some ⟨⟨e.down, e.peer.isSome, b, e.seg.ts⟩, if e.down then hs else hs.reverse⟩
+  | _, _ => none
+
+/-- cursor on the first hop of a list of path segments -/
+def startCursor : List Seg → Option Cursor
+  | ⟨i, h :: t⟩ :: rest => some ⟨[], i, [], h, t, rest⟩
+  | _ => none
+
+def pathOf (edges : List Edge) : Option Cursor :=
+  match edges.mapM edgeSeg with
+  | some segs => startCursor segs
+  | none => none
+
+/-- the inter-AS interfaces in the path metadata, as (AS, interface) in forwarding order -/
+def edgeIfaces (e : Edge) : List (Nat × Nat) :=
+  match e.seg.entries.drop e.shortcut with
+  | [] => []
+  | x :: rest =>
+    let cons : List (Nat × Nat) :=
+      (match e.peer with
+       | none => if x.hop.cEg ≠ 0 then [(x.ia, x.hop.cEg)] else []
+       | some k => match x.peers[k]? with
+         | some p => [(x.ia, p.hop.cIn)] ++ (if x.hop.cEg ≠ 0 then [(x.ia, x.hop.cEg)] else [])
+         | none => []) ++
+      (rest.map fun y =>
+        [(y.ia, y.hop.cIn)] ++ (if y.hop.cEg ≠ 0 then [(y.ia, y.hop.cEg)] else [])).flatten
+    if e.down then cons else cons.reverse
+
+def pathIfaces (edges : List Edge) : List (Nat × Nat) := (edges.map edgeIfaces).flatten
+
+/-! ### End-to-end run -/
+
+inductive Result
+  | delivered (as : Nat) (trace : List (Nat × Nat)) (c : Cursor)
+  | stopped (as router : Nat) (arr : Arrival) (o : Out) (trace : List (Nat × Nat))
+  | lost (trace : List (Nat × Nat))       -- forwarded onto an interface that leads nowhere
+  | outOfFuel
+deriving Repr
+
+/-- push the packet from border router to border router: over the sibling link when the egress
+    interface belongs to another router of the same AS, over the inter-AS link otherwise -/
+def run (mac : MacFn) (net : Net) (nowMs src dst : Nat) :
+    Nat → Nat → Nat → Arrival → Cursor → List (Nat × Nat) → Result
+  | 0, _, _, _, _, _ => .outOfFuel
+  | fuel + 1, a, r, arr, c, trace =>
+    match routerStep mac ⟨(net a).key, r, (net a).ifaces⟩ nowMs arr (a == src) (a == dst) c with
+    | .deliver c' => .delivered a trace c'
+    | .forward e c' =>
+      match (net a).iface e with
+      | none => .lost trace
+      | some f =>
+        if f.owner == r then
+          match (net f.nbr).iface f.nbrIf with
+          | some g =>
+            run mac net nowMs src dst fuel f.nbr g.owner (.ext f.nbrIf) c'
+              (trace ++ [(a, e), (f.nbr, f.nbrIf)])
+          | none => .lost trace
+        else run mac net nowMs src dst fuel a f.owner (.sibling r) c' trace
+    | o => .stopped a r arr o trace
+
+/-- the border router a host of AS `a` hands a packet to: the owner of the first egress interface -/
+def entryRouter (net : Net) (a : Nat) (c : Cursor) : Nat :=
+  match (net a).iface (if c.info.consDir then c.cur.cEg else c.cur.cIn) with
+  | some f => f.owner
+  | none => 0
+
+def fuelFor (c : Cursor) : Nat := 2 * ((toFlat c).hops.length) + 2
+
+/-- send a packet with path `c` from a host in AS `src` to AS `dst` -/
+def send (mac : MacFn) (net : Net) (nowMs src dst : Nat) (c : Cursor) : Result :=
+  run mac net nowMs src dst (fuelFor c) src (entryRouter net src c) .host c []
+
+/-! ## Part 3: the hypotheses of the end-to-end statements -/
+
+def opposite : LinkType → LinkType → Bool
+  | .core, .core | .parent, .child | .child, .parent | .peer, .peer => true
+  | _, _ => false
+
+/-- links are symmetric, both ends agree on the kind of link, no interface has id 0 -/
+def WFNet (net : Net) : Prop :=
+  ∀ a e f, (net a).iface e = some f →
+    e ≠ 0 ∧ f.id = e ∧
+    ∃ g, (net f.nbr).iface f.nbrIf = some g ∧ g.nbr = a ∧ g.nbrIf = e ∧ opposite f.lt g.lt = true
+
+def AllUp (net : Net) : Prop := ∀ a e f, (net a).iface e = some f → f.up = true
+
+/-- one border router per AS (the staged theorems below are proved for such networks; the general
+    case, sibling hand-over included, is covered by the tie to the real routers only) -/
+def SingleRouter (net : Net) : Prop := ∀ a e f, (net a).iface e = some f → f.owner = 0
+
+def Edge.used (e : Edge) : List ASE := e.seg.entries.drop e.shortcut
+
+/-- ASes visited by the used part of the segment, forwarding order -/
+def Edge.ases (e : Edge) : List Nat :=
+  if e.down then e.used.map (·.ia) else (e.used.map (·.ia)).reverse
+
+def Edge.kind (e : Edge) : Nat := if e.core then 1 else if e.down then 2 else 0
+
+/-- an edge as the combinator may use it: a registered segment of the right kind; core segments
+    whole and never in construction direction; at least two ASes unless the single AS is the
+    peering AS -/
+def Edge.Valid (mac : MacFn) (net : Net) (e : Edge) : Prop :=
+  Registered mac net e.core e.seg ∧ e.shortcut < e.seg.entries.length ∧
+  (e.core = true → e.down = false ∧ e.shortcut = 0 ∧ e.peer = none) ∧
+  (e.peer = none → e.shortcut + 1 < e.seg.entries.length) ∧
+  (∀ k, e.peer = some k → ∃ x p, e.seg.entries[e.shortcut]? = some x ∧ x.peers[k]? = some p)
+
+/-- two consecutive edges fit together: at a common AS, or over a peering link that both ASes
+    announced -/
+def Joint (e1 e2 : Edge) : Prop :=
+  match e1.peer, e2.peer with
+  | none, none => e1.ases.getLast? = e2.ases.head? ∧ e1.kind < e2.kind
+  | some k1, some k2 =>
+    e1.kind = 0 ∧ e2.kind = 2 ∧
+    ∃ x1 x2 p1 p2, e1.seg.entries[e1.shortcut]? = some x1 ∧ e2.seg.entries[e2.shortcut]? = some x2 ∧
+      x1.peers[k1]? = some p1 ∧ x2.peers[k2]? = some p2 ∧
+      p1.peerAS = x2.ia ∧ p2.peerAS = x1.ia ∧ p1.peerIf = p2.hop.cIn ∧ p2.peerIf = p1.hop.cIn
+  | _, _ => False
+
+def Joints : List Edge → Prop
+  | e1 :: e2 :: rest => Joint e1 e2 ∧ Joints (e2 :: rest)
+  | _ => True
+
+/-- ASes on the whole path, the AS of a (non-peering) segment change counted once -/
+def pathASes : List Edge → List Nat
+  | [] => []
+  | [e] => e.ases
+  | e1 :: e2 :: rest =>
+    (if e1.peer.isSome then e1.ases else e1.ases.dropLast) ++ pathASes (e2 :: rest)
+
+/-- what the combinator's graph search guarantees about the edge lists it turns into paths
+    (tied by engine `net`, not proved: C28/C29 treat the search) -/
+def Joinable (mac : MacFn) (net : Net) (edges : List Edge) (src dst : Nat) : Prop :=
+  edges ≠ [] ∧ edges.length ≤ 3 ∧ (∀ e ∈ edges, e.Valid mac net) ∧ Joints edges ∧
+  (∀ e ∈ edges, e.peer.isSome → edges.length = 2) ∧
+  (pathASes edges).head? = some src ∧ (pathASes edges).getLast? = some dst ∧
+  (pathASes edges).Nodup
+
+/-- no hop field of the path has expired -/
+def Unexpired (nowMs : Nat) (c : Cursor) : Prop :=
+  ∀ s ∈ c.segs, ∀ h ∈ s.hops, expired nowMs s.info.ts h.exp = false
 
 end Scion.Net
